@@ -162,6 +162,7 @@ type world struct {
 	useEtcd bool
 	confVer uint64
 	lastPanic string
+	buryRace  string // how the scripted checkStores/heartbeat interleaving went (histogram only)
 	prevServed, curServed, curStored map[uint64]rec
 	R *res.Result
 	notes   map[string]bool
@@ -401,6 +402,8 @@ func (w *world) errRes(err error) string {
 		return "RVersion"
 	case strings.Contains(m, "duplicated store address"):
 		return "RDupAddr"
+	case strings.Contains(m, "region peers, it cannot be buried"):
+		return "RHasPeers"
 	case strings.Contains(m, "not found"):
 		return "RNotFound"
 	}
@@ -414,6 +417,14 @@ func (w *world) exec(o *op) string {
 		plan[kvx14.PlanKey(strconv.FormatUint(o.F.SID, 10), o.F.Idx)] = []kvx14.Kind{kvx14.FailBefore, kvx14.FailAfter}[o.F.Kind]
 	}
 	w.kb.Arm(plan)
+	r := w.call(o, true)
+	w.kb.Arm(nil)
+	return w.snapshot(r)
+}
+
+// call runs one operation on the real cluster and returns its result constructor. fillOrder: take the map-iteration
+// order oracle of check / clean from the storage write log (only meaningful when nothing else writes meanwhile).
+func (w *world) call(o *op, fillOrder bool) string {
 	ctx := context.Background()
 	r := "RBad"
 	switch o.K {
@@ -446,7 +457,7 @@ func (w *world) exec(o *op) string {
 		w.rc.VerifC14CheckStores()
 		r = "RNone"
 		o.Order = nil
-		for _, e := range w.kb.Entries() { // the order in which the map iteration reached the stores it buried
+		for _, e := range w.entriesIf(fillOrder) { // the order in which the map iteration reached the stores it buried
 			if e.Op == "S" && strings.Contains(e.Key, "raft/s/") {
 				id, _ := strconv.ParseUint(e.Group, 10, 64)
 				o.Order = append(o.Order, id)
@@ -460,7 +471,10 @@ func (w *world) exec(o *op) string {
 		// store: weight keys, record, and the restoring writes after a failure): first appearance of each store id
 		o.Order = nil
 		seen := map[uint64]bool{}
-		for _, e := range w.kb.Entries() {
+		if !fillOrder { // a covering order: without faults the outcome does not depend on it
+			o.Order = []uint64{1, 2, 3, 4, 5, 6}
+		}
+		for _, e := range w.entriesIf(fillOrder) {
 			id, _ := strconv.ParseUint(e.Group, 10, 64)
 			if !seen[id] {
 				seen[id] = true
@@ -511,8 +525,278 @@ func (w *world) exec(o *op) string {
 			r = "ROk"
 		}
 	}
+	return r
+}
+
+func (w *world) entriesIf(b bool) []kvx14.Entry {
+	if !b {
+		return nil
+	}
+	return w.kb.Entries()
+}
+
+// ---------- overlapping operations ----------
+type pairRec struct {
+	In       caseIn // boot + setup ops
+	A, B     op
+	ParkIdx  int
+	RA, RB   string
+	Before   string
+	Mid      string // "" when b did not complete while a was parked
+	Final    string
+	Overlaid bool
+}
+
+func target(o op) uint64 {
+	if o.K == "put" {
+		return o.P.ID
+	}
+	return o.ID
+}
+
+// execPair parks a at its parkIdx-th write of store sid, starts b, and lets a continue when b has completed or has
+// visibly been blocked (by the cluster lock a holds).
+func (w *world) execPair(a, b *op, sid uint64, parkIdx int) (ra, rb, mid string, overlaid bool) {
+	w.kb.ArmPark(nil, kvx14.PlanKey(strconv.FormatUint(sid, 10), parkIdx))
+	parked := w.kb.Parked()
+	doneA := make(chan string, 1)
+	go func() { doneA <- w.call(a, false) }()
+	select {
+	case ra = <-doneA: // a never reached that write: plain sequential a ; b
+		w.kb.Arm(nil)
+		return ra, w.call(b, false), "", false
+	case <-parked:
+	case <-time.After(20 * time.Second):
+		panic("pair: a neither finished nor parked")
+	}
+	doneB := make(chan string, 1)
+	go func() { doneB <- w.call(b, false) }()
+	bDone := false
+	select {
+	case rb = <-doneB:
+		bDone = true
+		mid = w.snapshot("ROk") // reads only: GetStores and LoadStores need neither the cluster lock nor the parked write
+	case <-time.After(25 * time.Millisecond): // b waits for the lock a holds
+	}
+	w.kb.Release()
+	ra = <-doneA
+	if !bDone {
+		rb = <-doneB
+	}
 	w.kb.Arm(nil)
-	return w.snapshot(r)
+	return ra, rb, mid, bDone
+}
+
+func genPairOp(r *rng.R, kind int, sid uint64, addr string) op {
+	switch kind {
+	case 0:
+		return op{K: "weight", ID: sid, LW: int64(1 + r.Intn(4)), RW: int64(1 + r.Intn(4))}
+	case 1:
+		return op{K: "labels", ID: sid, Labels: genLabels(r), Force: r.Pct(30)}
+	case 2:
+		if r.Pct(40) {
+			addr = "a9" // the store moves to another address
+		}
+		return op{K: "put", P: payload{ID: sid, Addr: addr, Ver: []string{"4.0.0", "4.0.5"}[r.Intn(2)], Labels: genLabels(r)}}
+	case 3:
+		return op{K: "remove", ID: sid, PD: r.Pct(30)}
+	case 4:
+		return op{K: "up", ID: sid}
+	case 5:
+		return op{K: "bury", ID: sid}
+	case 6:
+		return op{K: "check"}
+	case 7:
+		return op{K: "clean"}
+	default: // a region heartbeat that places (or removes) a peer on the store
+		if r.Pct(70) {
+			return op{K: "region", R: 1, Stores: []uint64{1, sid}}
+		}
+		return op{K: "region", R: 1, Stores: []uint64{1}}
+	}
+}
+
+// scripted pairs run before the random ones: the situations the class exists for
+type pairScript struct {
+	Offline, Buried bool
+	A, B            op
+	Park            int
+}
+
+var pairScripts = []pairScript{
+	// SetStoreWeight parked at its leader-weight write while check-stores buries the (empty, offline) store
+	{Offline: true, A: op{K: "weight", ID: 2, LW: 2, RW: 3}, B: op{K: "check"}, Park: 0},
+	{Offline: true, A: op{K: "weight", ID: 2, LW: 2, RW: 3}, B: op{K: "up", ID: 2}, Park: 1},
+	// tombstone cleanup parked at its first write while the labels of that tombstone are updated
+	{Offline: true, Buried: true, A: op{K: "clean"}, B: op{K: "labels", ID: 2, Labels: []lab{{"zone", "w"}}}, Park: 0},
+	// the store moves to another address while its labels are updated
+	{A: op{K: "put", P: payload{ID: 2, Addr: "a9", Ver: "4.0.5"}}, B: op{K: "labels", ID: 2, Labels: []lab{{"zone", "w"}}}, Park: 0},
+	{Offline: true, A: op{K: "remove", ID: 2, PD: true}, B: op{K: "up", ID: 2}, Park: 0},
+}
+
+func (w *world) runPair(r *rng.R) pairRec { return w.runPairWith(r, nil) }
+
+// runBuryRace places a region heartbeat that adds a peer on the offline, empty store 2 exactly between checkStores'
+// unlocked read of the region count and buryStore's lock section.  Nothing between those two points can be parked, so
+// the order is fixed through the cluster lock itself:
+//   P  PutStore(1, version 4.0.5) raises the cluster version; its OnStoreVersionChange persists the config while holding
+//      the cluster READ lock -> parked at that write (a reader is inside).
+//   b  region heartbeat (peer on store 2): passes its read section, then c.Lock(): owns the writer slot, waits for P.
+//   a  checkStores: reads "store 2 offline, 0 regions" (no cluster lock), buryStore -> c.Lock(): queued behind b.
+//   release P -> b puts the region and returns -> a's buryStore runs; it is parked at its store write: mid snapshot.
+// P is, for the model, the last operation of the setup (its store write and the in-memory version change are complete).
+func (w *world) runBuryRace() pairRec {
+	var p pairRec
+	for try := 0; try < 8; try++ {
+		var ok bool
+		if p, ok = w.tryBuryRace(); ok {
+			if try > 0 {
+				w.notes[fmt.Sprintf("bury-race: set-up needed %d retries (the config parking point was taken by a background write)", try)] = true
+			}
+			return p
+		}
+		// the "config" parking point was taken by a background writer of the server (coordinator start-up persists the
+		// options too), not by the helper PutStore: what ran was an ordinary sequential b ; a. Again.
+	}
+	w.notes["bury-race: the interleaving could not be set up in 8 attempts (sequential case recorded)"] = true
+	w.buryRace = "not-set-up"
+	return p
+}
+
+func (w *world) tryBuryRace() (pairRec, bool) {
+	boot := payload{ID: 1, Addr: "a1", Ver: "4.0.0"}
+	w.reset("0.0.0", boot, false)
+	p := pairRec{In: caseIn{CV: "0.0.0", Boot: boot}}
+	step := func(o op) {
+		w.exec(&o)
+		p.In.Ops = append(p.In.Ops, o)
+	}
+	step(op{K: "put", P: payload{ID: 2, Addr: "a2", Ver: "4.0.5", Labels: []lab{{"host", "h"}}}})
+	step(op{K: "remove", ID: 2})
+	P := op{K: "put", P: payload{ID: 1, Addr: "a1", Ver: "4.0.5"}}
+	p.A = op{K: "check"}
+	p.B = op{K: "region", R: 1, Stores: []uint64{1, 2}}
+	w.kb.Arm(nil)
+	pk := w.kb.AddPark("", "config")
+	doneP := make(chan string, 1)
+	go func() { doneP <- w.call(&P, false) }()
+	select {
+	case <-pk.Parked:
+	case <-doneP: // the version change did not persist anything: no reader to hide behind, plain sequential b ; a
+		w.notes["bury-race: the version change of the helper PutStore wrote no config"] = true
+		p.In.Ops = append(p.In.Ops, P)
+		p.Before = w.snapshot("ROk")
+		p.RB = w.call(&p.B, false)
+		p.RA = w.call(&p.A, false)
+		p.A, p.B, p.RA, p.RB = p.B, p.A, p.RB, p.RA
+		p.Final = w.snapshot("ROk")
+		pk.Release()
+		return p, true
+	}
+	p.In.Ops = append(p.In.Ops, P)
+	p.Before = w.snapshot("ROk")
+	doneB := make(chan string, 1)
+	go func() { doneB <- w.call(&p.B, false) }()
+	select {
+	case p.RB = <-doneB: // b was not held up: it is not the helper that sits at the parking point
+		pk.Release()
+		<-doneP
+		p.RA = w.call(&p.A, false)
+		p.A, p.B, p.RA, p.RB = p.B, p.A, p.RB, p.RA
+		w.kb.Arm(nil)
+		p.Final = w.snapshot("ROk")
+		return p, false
+	case <-time.After(50 * time.Millisecond): // b is now waiting for the reader P with the writer slot taken
+	}
+	cp := w.kb.AddPark(kvx14.PlanKey("2", 0), "")
+	doneA := make(chan string, 1)
+	go func() { doneA <- w.call(&p.A, false) }()
+	time.Sleep(50 * time.Millisecond) // a has read the region count and queues for the lock in buryStore
+	pk.Release()
+	p.RB = <-doneB
+	select {
+	case <-cp.Parked: // buryStore went ahead: the region heartbeat is acknowledged and visible, the store not yet buried
+		p.Mid = w.snapshot("ROk")
+		p.Overlaid = true
+		w.buryRace = "buryStore-went-ahead-after-the-heartbeat"
+		cp.Release()
+		p.RA = <-doneA
+	case p.RA = <-doneA:
+		// since fix b5aa87e: buryStore saw the peer under the lock and refused (checkStores only logs that); the outcome is
+		// the sequential order region ; check, which the monitor accepts
+		w.buryRace = "buryStore-refused-under-the-lock"
+	}
+	<-doneP
+	w.kb.Arm(nil)
+	p.Final = w.snapshot("ROk")
+	return p, true
+}
+
+func (w *world) runPairWith(r *rng.R, sc *pairScript) pairRec {
+	boot := payload{ID: 1, Addr: "a1", Ver: "4.0.0"}
+	w.reset("0.0.0", boot, false)
+	p := pairRec{In: caseIn{CV: "0.0.0", Boot: boot}}
+	step := func(o op) {
+		w.exec(&o)
+		p.In.Ops = append(p.In.Ops, o)
+	}
+	const sid = 2
+	if sc != nil {
+		step(op{K: "put", P: payload{ID: sid, Addr: "a2", Ver: "4.0.0", Labels: []lab{{"host", "h"}}}})
+		if sc.Offline {
+			step(op{K: "remove", ID: sid})
+		}
+		if sc.Buried {
+			step(op{K: "check"})
+		}
+		p.A, p.B, p.ParkIdx = sc.A, sc.B, sc.Park
+		w.kb.Arm(nil)
+		p.Before = w.snapshot("ROk")
+		p.RA, p.RB, p.Mid, p.Overlaid = w.execPair(&p.A, &p.B, sid, p.ParkIdx)
+		p.Final = w.snapshot("ROk")
+		return p
+	}
+	// bring store 2 into a random lifecycle situation
+	step(op{K: "put", P: payload{ID: sid, Addr: "a2", Ver: "4.0.0", Labels: genLabels(r)}})
+	if r.Pct(30) {
+		step(op{K: "weight", ID: sid, LW: 2, RW: 3})
+	}
+	withRegion := r.Pct(25)
+	if withRegion {
+		step(op{K: "region", R: 1, Stores: []uint64{1, sid}})
+	}
+	switch r.Pick(25, 45, 30) {
+	case 1:
+		step(op{K: "remove", ID: sid, PD: r.Pct(25)})
+	case 2:
+		step(op{K: "remove", ID: sid, PD: r.Pct(25)})
+		if withRegion {
+			step(op{K: "region", R: 1, Stores: []uint64{1}})
+		}
+		step(op{K: "check"})
+	}
+	p.A = genPairOp(r, r.Intn(8), sid, "a2")
+	p.B = genPairOp(r, r.Intn(9), sid, "a2") // a region heartbeat has no store write to be parked at: only as b
+	p.ParkIdx = r.Pick(60, 20, 20)
+	w.kb.Arm(nil)
+	p.Before = w.snapshot("ROk")
+	p.RA, p.RB, p.Mid, p.Overlaid = w.execPair(&p.A, &p.B, sid, p.ParkIdx)
+	p.Final = w.snapshot("ROk")
+	return p
+}
+
+func (p pairRec) coq() string {
+	ops := make([]string, len(p.In.Ops))
+	for i, o := range p.In.Ops {
+		ops[i] = o.coq()
+	}
+	cv, _ := verTriple(p.In.CV)
+	mid := "None"
+	if p.Mid != "" {
+		mid = "(Some " + p.Mid + ")"
+	}
+	return "(" + cv + ", " + p.In.Boot.coq() + ",\n  " + coqfmt.List(ops) + ",\n  " + p.A.coq() + ",\n  " + p.B.coq() +
+		",\n  (OObs " + p.RA + " " + p.RB + "\n   " + p.Before + "\n   " + mid + "\n   " + p.Final + "))"
 }
 
 // ---------- generation ----------
@@ -699,6 +983,7 @@ func main() {
 	tier := flag.String("tier", "quick", "")
 	corpus := flag.String("corpus", "", "json file of fixed cases run first")
 	replay := flag.String("replay", "", "json file with cases (or an evidence replay file): run and print observations")
+	npairs := flag.Int("pairs", 80, "number of overlapping-operation cases")
 	flag.Parse()
 
 	w, err := newWorld()
@@ -715,7 +1000,10 @@ func main() {
 		"RaftCluster of a real bootstrapped server, with a storage fault (not applied / applied-but-error) at a chosen write of a chosen store; " +
 		"every 8th case runs on the server's own etcd-backed kv.Base, the others on kv.NewMemoryKV under the same wrapper; a malformed stream " +
 		"(id 0, unparseable / incompatible version, empty or clashing address, tombstone payloads) is mixed into every 4th case; non-trivial = at " +
-		"least one lifecycle transition and at least one rejected or faulted operation; distinct by sha256 of the canonical case text"
+		"least one lifecycle transition and at least one rejected or faulted operation; plus an overlapping-operations class: for pairs among " +
+		"{SetStoreWeight, UpdateStoreLabels, PutStore, RemoveStore, UpStore, buryStore, checkStores, RemoveTombStoneRecords} on one store in a random " +
+		"lifecycle situation, the first is parked at its 1st/2nd/3rd storage write of that store (KV wrapper) while the second is started, and the " +
+		"outcome must be that of one of the two sequential orders; distinct by sha256 of the canonical case text"
 	cf := &coqfmt.CaseFile{Dir: *out, Prefix: "C14", PerFile: 25,
 		Header: "From Coq Require Import String.\nFrom PDV Require Import lib.Base model.C14_Store.\nLocal Open Scope string_scope.\nLocal Open Scope Z_scope.\n",
 		Type:   "case",
@@ -812,11 +1100,57 @@ func main() {
 		panic(err)
 	}
 	R.CaseFiles = cf.Files
+	// ---- overlapping operations: a parked at one of its storage writes, b started meanwhile
+	var raw []interface{}
+	for _, c := range all {
+		raw = append(raw, c)
+	}
+	if *replay == "" && *npairs > 0 {
+		for len(raw)%cf.PerFile != 0 { // keep bin/check's (file, index) -> cases.json arithmetic valid across the two kinds of file
+			raw = append(raw, nil)
+		}
+		of := &coqfmt.CaseFile{Dir: *out, Prefix: "C14o", PerFile: cf.PerFile,
+			Header: cf.Header, Type: "ocase",
+			Footer: "Definition M := Eval vm_compute in (@nil nat).\nDefinition D := Eval vm_compute in explain_o cases.\nDefinition V := Eval vm_compute in monitor_o_fails cases.\nPrint M. Print D. Print V.\n"}
+		master := rng.New(*seed ^ 0x5eed0c14)
+		for k := 0; k < *npairs+len(pairScripts)+1; k++ {
+			var p pairRec
+			if k == len(pairScripts) {
+				p = w.runBuryRace()
+				R.Count("pair-stream:scripted")
+				R.Count("bury-race:" + w.buryRace)
+			} else if k < len(pairScripts) {
+				p = w.runPairWith(master.Fork(uint64(k)), &pairScripts[k])
+				R.Count("pair-stream:scripted")
+			} else {
+				p = w.runPair(master.Fork(uint64(k)))
+			}
+			mode := "serialised-by-lock"
+			if p.Overlaid {
+				mode = "b-completed-while-a-parked"
+			} else if p.Mid == "" && p.RA != "" && !strings.Contains(p.Final, "View") {
+				mode = "serialised-by-lock"
+			}
+			R.Count("pair:" + p.A.K + "|" + p.B.K)
+			R.Count("pair-mode:" + mode)
+			R.Count(fmt.Sprintf("pair-park-write:%d", p.ParkIdx))
+			txt := p.coq()
+			R.Case(txt, true)
+			if err := of.Add(txt); err != nil {
+				panic(err)
+			}
+			raw = append(raw, p)
+		}
+		if err := of.Flush(); err != nil {
+			panic(err)
+		}
+		R.CaseFiles = append(R.CaseFiles, of.Files...)
+	}
 	for k := range w.notes {
 		R.Notes = append(R.Notes, k)
 	}
 	sort.Strings(R.Notes)
-	b, _ := json.Marshal(all)
+	b, _ := json.Marshal(raw)
 	os.WriteFile(path.Join(*out, "cases.json"), b, 0o644)
 	if err := R.Write(path.Join(*out, "result.json")); err != nil {
 		panic(err)
